@@ -62,7 +62,14 @@ class Contract:
         self.modes = ['R']
         self.defines_ = []
         self.effect_fn = None
+        self.reveals_ = []
         REGISTRY.append(self)
+
+    def reveal(self, text):
+        """definitional unfolding of an opaque spec function, evaluated after the body (arguments and
+        `result` in scope) and *assumed*.  Only definitions of spec functions may be revealed."""
+        self.reveals_.append(text)
+        return self
 
     def effect(self, fn):
         """modular use: fn(I, env) writes the post-state directly (instead of havoc + assume).  The
@@ -244,6 +251,14 @@ class Builder:
 
     def assume(self, cond):
         self.I.assume(cond)
+
+    def volatile(self, obj, field, reader):
+        """field of obj is written by other threads: each read in code returns reader(I, obj, field)."""
+        self.I.volatile[(id(obj), field)] = reader
+
+    def ghost(self, name, value):
+        self.I.ghost[name] = value
+        return value
 
     def between(self, x, lo, hi):
         """assume lo <= x <= hi (works for symbolic and, in replays, concrete x)."""
@@ -479,6 +494,11 @@ def install_spec_fns(I):
             return None
         return u.ns['%s_to_%s' % (s_.lower(), d_.lower())]
 
+    @reg('unchanged')
+    def _unchanged(I_, a, k):
+        """the location named by the argument expression holds the identical value as on entry"""
+        raise TypeError('unchanged() is a special form')
+
     @reg('typename')
     def _typename(I_, a, k):
         return I_.typename(a[0])
@@ -632,6 +652,8 @@ def verify_contract(I, c, timeout_ms=10000, only_case=None):
             def thunk():
                 b = Builder(I, case)
                 I.ghost['contract_name'] = c.name
+                I.ghost['Dev'] = PyList()       # requests that reached a device stub
+                I.ghost['Clk'] = PyList()       # requests that reached a clock stub
                 if c.setup_fn is not None:
                     args = c.setup_fn(b, case)
                 else:
@@ -639,6 +661,7 @@ def verify_contract(I, c, timeout_ms=10000, only_case=None):
                     for n, alts in c.arg_specs:
                         args[n] = alts[case[n]].build(b, n)
                 I.cur_inputs = b.inputs
+                I.spec_extra = {k_: v for k_, v in args.items() if k_.startswith('_')}
                 penv = Env(dict(args), None, fn.module.ns, None)
                 for cid, text in c.requires_:
                     I.assume(I.eval_spec(text, penv))
@@ -675,6 +698,8 @@ def verify_contract(I, c, timeout_ms=10000, only_case=None):
                                      info={'clause': text, 'case': label})
                     return 'raised'
                 penv.vars['result'] = result
+                for rtext in c.reveals_:
+                    I.assume(I.eval_spec(rtext, penv))
                 for dname, dtext in c.defines_:
                     try:
                         penv.vars[dname] = I.eval_spec_value(dtext, penv)
